@@ -150,7 +150,53 @@ func stressOne(seed int64, dur time.Duration, nReaders int) string {
 			defer wg.Done()
 			for atomic.LoadInt32(&stop) == 0 {
 				guard("reader", func() {
-					switch rr.Intn(11) {
+					switch rr.Intn(12) {
+					case 11:
+						// C05 names Snapshot among the read-only calls: what a snapshot taken while the
+						// mutator runs shows must be ONE version from the window of the Snapshot() call,
+						// and must not change afterwards, however long the mutator goes on
+						mu.Lock()
+						s0 := len(hashes)
+						mu.Unlock()
+						snap := st.Snapshot()
+						mu.Lock()
+						s1 := len(hashes)
+						window := append([]uint64{}, hashes[max(0, s0-2):s1]...)
+						mu.Unlock()
+						read := func() (uint64, error) {
+							got := map[string]string{}
+							sc := snap.GetCollection("a")
+							if sc == nil {
+								return contentHash(got), nil
+							}
+							err := sc.VisitItemsAscend([]byte{0}, true, func(i *gkvlite.Item) bool {
+								got[string(i.Key)] = string(i.Val)
+								return true
+							})
+							return contentHash(got), err
+						}
+						h1, err := read()
+						if err != nil {
+							fail("bad:snapshot-visit " + errClass(err))
+						}
+						time.Sleep(time.Duration(rr.Intn(300)) * time.Microsecond)
+						h2, err := read()
+						if err != nil {
+							fail("bad:snapshot-visit " + errClass(err))
+						}
+						snap.Close()
+						if h1 != h2 {
+							fail("bad:snapshot-changed-between-two-reads")
+						}
+						ok := false
+						for _, x := range window {
+							if x == h1 {
+								ok = true
+							}
+						}
+						if !ok {
+							fail(fmt.Sprintf("bad:snapshot-shows-no-single-version window=%d", len(window)))
+						}
 					case 8:
 						c.AllocStats() // takes all three allocator locks
 					case 9, 10:
